@@ -25,7 +25,7 @@ fn main() {
 }
 
 pub fn gen(rng: &mut Rng, idx: usize, n: usize, thorough: bool) -> String {
-    let o = GenOpts { max_vars: if thorough { 7 } else { 5 }, max_ops: if thorough { 30 } else { 14 }, new_vars: false, small_tables: false };
+    let o = GenOpts { max_vars: if thorough { 7 } else { 6 }, max_ops: if thorough { 30 } else { 14 }, new_vars: false, small_tables: false };
     let p = gen_prog(rng, idx, n, &o);
     let prog = parse(&p);
     let total = prog.total_vars();
@@ -35,8 +35,16 @@ pub fn gen(rng: &mut Rng, idx: usize, n: usize, thorough: bool) -> String {
     for _ in 0..nq {
         // bias towards the largest diagrams and towards entries that share structure
         let i = if rng.chance(2, 3) { npool - 1 - rng.range(0, 2.min(npool - 1)) } else { rng.below(npool as u64) as usize };
-        match rng.below(10) {
-            0 | 1 => { s.push_str(&format!(" w {i}")); for _ in 0..total { s.push_str(&format!(" {} {}", rng.below(5), rng.below(5))); } }
+        match rng.below(12) {
+            // the same diagram counted with other weights of the same type straight afterwards: a
+            // stale memo entry of the first count would be reused by the second
+            0 | 1 | 10 => {
+                for _ in 0..(if rng.coin() { 2 } else { 1 }) {
+                    s.push_str(&format!(" w {i}"));
+                    for _ in 0..total { s.push_str(&format!(" {} {}", rng.below(5), rng.below(5))); }
+                }
+            }
+            11 => s.push_str(&format!(" c {i} {} {}", rng.below(total as u64), rng.coin() as u8)),
             2 => s.push_str(&format!(" f {i}")),
             3 | 4 => { s.push_str(&format!(" e {i}")); for _ in 0..total { s.push_str(&format!(" {}", rng.coin() as u8)); } }
             5 => s.push_str(&format!(" n {i}")),
